@@ -340,6 +340,7 @@ func Run(ctx *common.Ctx) {
 	header := "From C06 Require Import Model Spec Corr.\n"
 	footer := "Definition res := Eval vm_compute in check_all cases.\nPrint res.\nDefinition gcount := Eval vm_compute in guard_count cases.\nPrint gcount.\n"
 	ctx.WriteShards("cases", header, "case", footer, terms, descs, 16)
+	mappingBlock(ctx)
 	runtimeSlices(ctx)
 	ctx.ReplayKnownLisp()
 }
